@@ -16,13 +16,13 @@ Qed.
 Lemma iface_upd_reset : forall o d x, o_iface_reset o = true -> iface_upd o d x = naked x.
 Proof.
   intros o d x H. unfold iface_upd. rewrite H.
-  destruct d as [| |p|l|m|fs|[v|]]; try reflexivity. destruct v; reflexivity.
+  destruct d as [| |p|l|m|fs|[v|]|dt dv]; try reflexivity. destruct v; reflexivity.
 Qed.
 
 Definition elem_guard (fp : bool) (o : dopts) (e : ty) : Prop := is_iface e = true -> refl_reset fp o e = false.
 
 Lemma fast_slice_go_refl : forall fp o e, fast_elem e = true -> elem_guard fp o e -> forall l old,
-  fast_slice_go o e l old = slice_upd (dec_refl fp o e) (refl_reset fp o e) (zero_of e) l old.
+  fast_slice_go false o e l old = slice_upd (dec_refl fp o e) (refl_reset fp o e) (zero_of e) l old.
 Proof.
   intros fp o e He Hg. induction l as [|x r IH]; intro old; [reflexivity|].
   cbn [fast_slice_go slice_upd]. rewrite IH.
@@ -33,7 +33,7 @@ Proof.
 Qed.
 
 Lemma fast_map_go_refl : forall fp o e, fast_elem e = true -> forall kvs m,
-  fast_map_go o e kvs m = map_upd (dec_refl fp o e) (o_map_value_reset o) (zero_of e) kvs m.
+  fast_map_go false o e kvs m = map_upd (dec_refl fp o e) (o_map_value_reset o) (zero_of e) kvs m.
 Proof.
   intros fp o e He. induction kvs as [|[k x] r IH]; intro m; [reflexivity|].
   cbn [fast_map_go map_upd]. destruct k; try reflexivity.
@@ -62,7 +62,7 @@ Theorem fast_is_refl : forall fp o t d it, has_fastpath t = true ->
   (forall e, t = TSlice e -> elem_guard fp o e) ->
   dec_fast o t d it = dec_refl fp o t d it.
 Proof.
-  intros fp o t d it Hf Hg. destruct it; [reflexivity|..]; rewrite refl_eqn by reflexivity; unfold through;
+  intros fp o t d it Hf Hg. unfold dec_fast, dec_fast_x. destruct it; [reflexivity|..]; rewrite refl_eqn by reflexivity; unfold through;
   destruct t as [| |e|e|e|fs|]; try discriminate; simpl in Hf |- *;
   try reflexivity.
   - (* IArr into slice *)
